@@ -37,6 +37,9 @@ func (self ValueAnyObject) Display() (string, *Interrupt) {
 }
 
 func (self ValueAnyObject) IsEqual(other Value) (bool, *Interrupt) {
+	if other.Kind() != self.Kind() {
+		return false, nil
+	}
 	otherObj := other.(ValueAnyObject)
 
 	// Keys which only exist in `other` would otherwise go unnoticed.
